@@ -25,9 +25,11 @@ Fixpoint export (t : stree) (can_elide : bool) (h : hog) {struct h} : list item 
       let elide := can_elide &&
                    (Nat.eqb (List.length ks) 1 ||
                     (negb (Nat.eqb (List.length ks) 1) && Nat.eqb (List.length dks) 1 && Nat.eqb nplain 0)) in
+      (* the flag handed to the plain children: is the orthologGroup they are written into "wide"? *)
+      let wide := if elide then true else Nat.leb 2 (List.length dks + nplain) in
       let body :=
         map (fun k => IPG None (flat_map (fun kd => if is_member k kd then export t false (snd kd) else []) ks)) dks
-        ++ flat_map (fun kd => if flagged (fst kd) then [] else export t true (snd kd)) ks in
+        ++ flat_map (fun kd => if flagged (fst kd) then [] else export t wide (snd kd)) ks in
       if elide then body
       else [IOG (Some (id_text m)) None (IProp "TaxRange" (tax_name t p) :: body)]
   end.
